@@ -255,6 +255,35 @@ CHECKS["C20"] = {
     },
 }
 
+CHECKS["C18"] = {
+    "machine": "dep",
+    "runs": {"quick": 30_000, "thorough": 1_000_000},
+    "chunk": {"quick": 400, "thorough": 2_000},
+    "budget_s": {"quick": 80, "thorough": 900},
+    "run_timeout": 60,
+    "manifest": {
+        "text": "Partial. The third-party converter is replaced through the encoder= / decoder= constructor seam by a wrapper that fails chosen calls with one of 11 "
+                "exception kinds (real pylatexenc or a marker stub underneath); every text value is made unique so a failed call identifies its site "
+                "(entry field, name part, @string). Decided per run: no exception escapes transform; an entry whose conversion failed becomes a middleware-error block holding "
+                "the entry with the unconverted value; un-faulted text values are converted exactly once; everything but text values (keys, types, raw, start lines, metadata, "
+                "ints, lists, other blocks) is fingerprint-identical; text values stay str; the converter is handed nothing but text values; copy mode leaves the input unchanged. "
+                "Fault-free option sets (keep_math, enclose_urls, keep_braced_groups, keep_math_mode) run the real converter. NOT decided: decode(encode(t)) == t. Sampling.",
+        "design_ref": "DESIGN.md section 3 / C18",
+        "note": "For a failed @string conversion only 'no exception, value still a str' is demanded (the statement speaks of entries). A list of NameParts is not a text value for this middleware.",
+        "technique": "deterministic simulation: fault injection at the dependency seam (failing converter calls), containment / scope / type invariants",
+    },
+    "extra": {
+        "rule": "each run = one docgen document (name lists, @strings) parsed under default / names / no stack, 0-3 extra fields (NameParts, list, int, None), "
+                "a middleware (encode|decode, marker|real|own converter, in-place or copy) and a fault plan (0-3 failing call indices x exception kind); "
+                "distinct = distinct event-log shape incl. result digest; non-trivial = the transform ran.",
+        "state_measure": "distinct (direction, converter, exception kind, fault sites, in-place flag, options) tuples",
+        "expected_probes": ["fault_in_field", "fault_in_namepart", "fault_in_string", "planned_fault_beyond_last_call"],
+        "components": {"real": REAL_COMMON + ["LatexEncodingMiddleware / LatexDecodingMiddleware", "BlockMiddleware.transform", "pylatexenc (inner=real, inner=own)"],
+                       "stub": ["FaultyConverter (fails planned calls)", "Marker converter (wraps once)"]},
+        "assumptions": ["a converter that returns a non-str is out of scope"],
+    },
+}
+
 _PURE = ("pure function of its argument: no stream, no state kept between calls, no collaborator that can fail, no schedule or clock; "
          "the only thing a harness could vary is the input, which is input generation / bounded enumeration, not deterministic simulation (DESIGN.md section 1)")
 
